@@ -29,20 +29,23 @@ OUT = os.path.join(VERIF, "mutation")
 
 # Which properties are anchored in which file (order = which check is tried first).
 FILE_PROPS = {
-    "src/bits.rs": ["C17", "C01", "C05"],
-    "src/raw_vector.rs": ["C05", "C12", "C13", "C01"],
-    "src/int_vector.rs": ["C05", "C12", "C13", "C04"],
+    "src/bits.rs": ["C17", "C01", "C05"],   # C17 needs a configuration without BMI2 as well: see CFGS_FOR
+    "src/raw_vector.rs": ["C05", "C12", "C13", "C09", "C01"],
+    "src/int_vector.rs": ["C05", "C12", "C13", "C09", "C04"],
     "src/bit_vector.rs": ["C01", "C10", "C19", "C09", "C11"],
     "src/bit_vector/rank_support.rs": ["C01", "C19", "C06"],
     "src/bit_vector/select_support.rs": ["C01", "C19", "C06"],
-    "src/sparse_vector.rs": ["C02", "C15", "C16", "C10", "C11"],
-    "src/rl_vector.rs": ["C03", "C16", "C10", "C11"],
+    "src/sparse_vector.rs": ["C02", "C15", "C16", "C10", "C09", "C11"],
+    "src/rl_vector.rs": ["C03", "C16", "C10", "C09", "C11"],
     "src/rl_vector/index.rs": ["C03", "C06"],
     "src/wavelet_matrix.rs": ["C04", "C09", "C06"],
     "src/wavelet_matrix/wm_core.rs": ["C04", "C09", "C19"],
     "src/serialize.rs": ["C06", "C14", "C13", "C18", "C20", "C19"],
     "src/ops.rs": ["C04", "C09"],
 }
+
+# Extra build configurations per property (the portable select of bits.rs only exists without BMI2).
+CFGS_FOR = {"C17": "rel,dbg,rel-nobmi,dbg-nobmi"}
 
 OPERATORS = [
     (r" \+ 1\b", " - 1"), (r" - 1\b", " + 1"), (r" \+ 1\b", ""), (r" - 1\b", ""),
@@ -171,7 +174,7 @@ def main():
             else:
                 caught = None
                 for prop in FILE_PROPS[m["file"]]:
-                    e2 = dict(env, VERIF_REPO=W, VERIF_ONLY_CFGS=cfgs)
+                    e2 = dict(env, VERIF_REPO=W, VERIF_ONLY_CFGS=CFGS_FOR.get(prop, cfgs))
                     if os.environ.get("VERIF_HARNESS_SNAPSHOT"):
                         e2["VERIF_HARNESS_SNAPSHOT"] = os.environ["VERIF_HARNESS_SNAPSHOT"]
                     rc, out = sh("python3 %s/run_check.py %s --tier quick 2>&1" % (VERIF, prop), env=e2, timeout=3000)
